@@ -571,13 +571,20 @@ impl<'r, 'c, 's, W: Write> DatumSerializer<'r, 'c, 's, W> {
 						)
 					})?;
 				let bytes = n.to_be_bytes();
+				// Number of leading bytes that are only sign extension (can be dropped
+				// without altering the two's complement value)
+				let mut sign_extension_len = 0;
+				while sign_extension_len < bytes.len() - 1
+					&& ((bytes[sign_extension_len] == 0x00
+						&& bytes[sign_extension_len + 1] & 0x80 == 0)
+						|| (bytes[sign_extension_len] == 0xFF
+							&& bytes[sign_extension_len + 1] & 0x80 != 0))
+				{
+					sign_extension_len += 1;
+				}
 				let buf = match decimal.repr {
 					DecimalRepr::Bytes => {
-						let mut start = 0;
-						while start < bytes.len() - 1 && bytes[start] == 0 {
-							start += 1;
-						}
-						let buf = &bytes[start..];
+						let buf = &bytes[sign_extension_len..];
 						self.state
 							.writer
 							.write_varint::<i64>(buf.len().try_into().map_err(|_| {
